@@ -4,10 +4,10 @@ import scipy.sparse as sps
 
 REPLAY_IMPORTS = "import scipy.sparse as sps\nimport scipy.linalg as spla\nfrom pymoto.solvers import *\nimport warnings\nwarnings.filterwarnings('ignore')\n"
 
-REAL_CLASSES = ('gen', 'spd', 'snd', 'sym_indef', 'band', 'triu', 'tril', 'diag')
-CPLX_CLASSES = ('cgen', 'csym', 'herm_pd', 'herm_indef', 'cdiag')
-SYMMETRIC = {'spd', 'snd', 'sym_indef', 'band', 'diag', 'csym', 'cdiag'}     # A == A.T
-HERMITIAN = {'spd', 'snd', 'sym_indef', 'band', 'diag', 'herm_pd', 'herm_indef'}  # A == A.conj().T
+REAL_CLASSES = ('gen', 'spd', 'snd', 'sym_indef', 'band', 'triu', 'tril', 'diag', 'perm', 'sym_zdiag')
+CPLX_CLASSES = ('cgen', 'csym', 'herm_pd', 'herm_indef', 'cdiag', 'cperm', 'herm_zdiag', 'csym_zdiag')
+SYMMETRIC = {'spd', 'snd', 'sym_indef', 'band', 'diag', 'csym', 'cdiag', 'sym_zdiag', 'csym_zdiag'}     # A == A.T
+HERMITIAN = {'spd', 'snd', 'sym_indef', 'band', 'diag', 'herm_pd', 'herm_indef', 'sym_zdiag', 'herm_zdiag'}  # A == A.conj().T
 POSDEF = {'spd', 'band', 'herm_pd'}
 
 
@@ -41,11 +41,28 @@ def gen_matrix(kind, n, rng):
         return np.tril(R, -1) + d * np.diag(signs(n))
     if kind == 'diag':
         return np.diag(signs(n) * rng.uniform(0.5, 3.0, n))
+    if kind == 'perm':      # rows of a dominant matrix shifted cyclically: zero-free but tiny diagonal, every LU needs row exchanges
+        return np.roll(R + d * np.diag(signs(n)), 1, axis=0)
+    if kind in ('sym_zdiag', 'herm_zdiag', 'csym_zdiag'):
+        # [[0, M], [M^H or M^T, 0]] with a dominant M: symmetric / Hermitian, indefinite, ZERO diagonal (2x2 pivots in LDL); odd n gets one 1x1 block
+        h = n // 2
+        cplx = kind != 'sym_zdiag'
+        M = rng.uniform(-1, 1, (h, h)) + (1j * rng.uniform(-1, 1, (h, h)) if cplx else 0) + 1.5 * (h + 1.0) * np.eye(h)
+        A = np.zeros((n, n), dtype=complex if cplx else float)
+        A[:h, h:2 * h] = M
+        A[h:2 * h, :h] = M.conj().T if kind == 'herm_zdiag' else M.T
+        if n % 2:
+            A[n - 1, n - 1] = -2.5
+            if n > 1:
+                A[n - 1, 0] = A[0, n - 1] = 0.5
+        return A
     C = R + 1j * rng.uniform(-1, 1, (n, n))
     dc = 1.5 * d
     ph = np.exp(1j * rng.uniform(0, 2 * np.pi, n))
     if kind == 'cgen':
         return C + dc * np.diag(ph)
+    if kind == 'cperm':
+        return np.roll(C + dc * np.diag(ph), 1, axis=0)
     if kind == 'csym':
         return (C + C.T) / 2 + dc * np.diag(ph)
     if kind == 'herm_pd':
